@@ -18,3 +18,11 @@ claim("C02", "typed-truthiness lint + abstract interpretation of the yacc action
 claim("C05", "decision tables by abstract interpretation of ErrorHandler._handle_if / do_i_* / validation-mode parsers / Expression.matches + defined-attribute check + trap-shape check",
       "Static: the full decision table of ErrorHandler._handle_if shows each effect (stop, collect, fail, print, raise) depends on its own flag only, raise last; do_i_* consult the matching override else the matching policy member; the validation-mode token parsers are tabulated over all strings of <= 2 tokens; every attribute the handler reads on the Error record is defined; Matcher.matches reaches clear_errors before every return (from the same exhaustive table as C13.R1); Expression.matches/Function.matches/Matcher._do_lasts trap Exception around every child evaluation and an erroring expression does not match unless validation-mode says match. Does not decide which inputs raise.",
       BASE_NOTE)
+
+claim("C01", "alias->operator tables by name folding (abstract interpretation) + exhaustive decision tables of Matcher.matches/_consider_line/next + function vote/value tables",
+      "Static: for every alias the factory maps to the comparison classes and every type path the *returned* operator equals docs (a computed-and-discarded comparison is seen as such); the type ladder tries numbers before text; exhaustive decision tables of Matcher.matches (vote fold, order), CsvPath._consider_line (verdict and counters) and the generator CsvPath.next (yield iff considered true, once, in order); name-only helper predicates decide every alias; Equality dispatch/when-do/equality tables; Expression error table; vote/value tables of not/and/or/yes/no/equals/in/exists/empty and string functions. Does not decide the value of every function for every argument.",
+      BASE_NOTE + " Open finding F1 (lt/below/before return <=) is listed in known_findings.json.")
+
+claim("C14", "exhaustive decision table of the assignment implementation by abstract interpretation against docs/assignment.md",
+      "Static: Equality._do_assignment_new_impl with its helpers inlined is interpreted at AST level for all 256 qualifier subsets x current value {None,1,2,3} x new value {None,1,2,3,'true','false'} x line-matches x AND/OR (about 13k rows) and compared with the write/vote table of docs/assignment.md; argument wiring of _do_assignment; decision table of the onmatch look-ahead Qualified.line_matches/do_onmatch; asbool value table; Equality.matches dispatch. The values y takes on a given line are not decided.",
+      BASE_NOTE)
